@@ -48,6 +48,7 @@ structure Facts where
   selRecvErr : Bool             -- dispatch select has `case err := <-errs`
   waitBeforeEarlyReturn : Bool  -- that case does wg.Wait() before `return err`
   addBeforeGo : Bool            -- wg.Add(1) in the loop body before the go statement
+  addAfterGo : Bool             -- wg.Add(1) in the loop body after the go statement (not in the unchanged code)
   workerOps : List WOp          -- worker: body operations in order, then deferred ones (LIFO)
   writeGuarded : Bool           -- f is called only if PostProcess returned nil
   finalWait : Bool              -- wg.Wait() after the loop
@@ -58,7 +59,7 @@ structure Facts where
 def expected : Facts :=
   { clampConc := true, errsCap := .lenJobs, procCap := .concurrency,
     selAcquire := true, selRecvErr := true, waitBeforeEarlyReturn := true,
-    addBeforeGo := true, workerOps := [.pp, .write, .send, .done, .release],
+    addBeforeGo := true, addAfterGo := false, workerOps := [.pp, .write, .send, .done, .release],
     writeGuarded := true, finalWait := true, finalRecv := .nonblocking }
 
 /-- one call: the job list (path, content), p.concurrency (values ≤ 0 are represented by 0),
@@ -140,19 +141,34 @@ def stepRecvErr (s : State) : Option State :=
     | e :: es => some { s with dpc := .errRecv e, errs := es }
   else none
 
+/- `wg.Add(1)` and the `go` statement.  Unchanged code: acquired --add--> added --spawn--> loop.
+   With the Add after the go statement (`addAfterGo`): acquired --spawn--> added --add--> loop, so the
+   new worker can run — and reach `wg.Done()` — before the counter was incremented. -/
 def stepAdd (s : State) : Option State :=
-  if s.dpc = .acquired then
-    some { s with dpc := .added, wg := if F.addBeforeGo then s.wg + 1 else s.wg }
-  else none
+  if F.addAfterGo then
+    if s.dpc = .added then some { s with dpc := .loop, wg := s.wg + 1 } else none
+  else
+    if s.dpc = .acquired then
+      some { s with dpc := .added, wg := if F.addBeforeGo then s.wg + 1 else s.wg }
+    else none
 
 def stepSpawn (s : State) : Option State :=
-  if s.dpc = .added then
-    match cfg.jobs[s.idx]? with
-    | none => none
-    | some (p, c) =>
-      some { s with dpc := .loop, idx := s.idx + 1,
-                    workers := s.workers ++ [{ id := s.idx, path := p, content := c, failed := false, ops := F.workerOps }] }
-  else none
+  if F.addAfterGo then
+    if s.dpc = .acquired then
+      match cfg.jobs[s.idx]? with
+      | none => none
+      | some (p, c) =>
+        some { s with dpc := .added, idx := s.idx + 1, wg := if F.addBeforeGo then s.wg + 1 else s.wg,
+                      workers := s.workers ++ [{ id := s.idx, path := p, content := c, failed := false, ops := F.workerOps }] }
+    else none
+  else
+    if s.dpc = .added then
+      match cfg.jobs[s.idx]? with
+      | none => none
+      | some (p, c) =>
+        some { s with dpc := .loop, idx := s.idx + 1,
+                      workers := s.workers ++ [{ id := s.idx, path := p, content := c, failed := false, ops := F.workerOps }] }
+    else none
 
 def stepEarlyRet (s : State) : Option State :=
   match s.dpc with
